@@ -1,6 +1,7 @@
 SPECIFICATION Spec
 CONSTANTS
-  Cols2 = 4
+  Cols2 = 3
+  Cols2b = 4
   Cols3 = 3
   IdxLen = 4
   Rich = TRUE
